@@ -19,6 +19,7 @@ import (
 	"path"
 	"sort"
 	"strings"
+	"sync"
 	"testing"
 	"time"
 
@@ -39,6 +40,7 @@ type (
 		Conv    *[]string `json:"conv"`
 		MarkAdd []uint64  `json:"markadd"`
 		MarkDel []uint64  `json:"markdel"`
+		Point   string    `json:"point"`
 	}
 	verifC11Seq struct {
 		ID     int            `json:"id"`
@@ -98,6 +100,7 @@ type (
 		Tags   []verifC11Tag   `json:"tags,omitempty"`
 		List   []verifC11List  `json:"list,omitempty"`
 		Status string          `json:"status,omitempty"`
+		Held   *bool           `json:"held,omitempty"` // a tagging job was parked at the requested gate during this call
 		Signal map[string]bool `json:"-"`
 	}
 )
@@ -124,6 +127,59 @@ while 1:
 `
 
 const verifC11Timeout = 30 * time.Second
+
+// verifC11Gates parks one tagging job at "tag.start" / "tag.done" on request, so that API calls can run
+// while the job is in flight, and counts the arrivals.
+type verifC11Gates struct {
+	mu       sync.Mutex
+	hold     map[string]bool
+	parked   map[string]chan struct{}
+	arrivals map[string]int
+}
+
+func (g *verifC11Gates) gate(point string) {
+	g.mu.Lock()
+	g.arrivals[point]++
+	if g.hold[point] && g.parked[point] == nil {
+		c := make(chan struct{})
+		g.parked[point] = c
+		g.hold[point] = false
+		g.mu.Unlock()
+		<-c
+		return
+	}
+	g.mu.Unlock()
+}
+
+func (g *verifC11Gates) pending() (holding bool, parkedAt string) {
+	g.mu.Lock()
+	defer g.mu.Unlock()
+	for p, c := range g.parked {
+		if c != nil {
+			return false, p
+		}
+	}
+	for _, h := range g.hold {
+		if h {
+			return true, ""
+		}
+	}
+	return false, ""
+}
+
+func (g *verifC11Gates) releaseAll() {
+	g.mu.Lock()
+	defer g.mu.Unlock()
+	for p := range g.hold {
+		g.hold[p] = false
+	}
+	for p, c := range g.parked {
+		if c != nil {
+			close(c)
+			g.parked[p] = nil
+		}
+	}
+}
 
 func verifC11Sorted(s []string) []string {
 	r := append([]string{}, s...)
@@ -354,6 +410,12 @@ func verifC11RunSeq(t *testing.T, seq verifC11Seq, emit func(verifC11Line)) {
 			t.Fatal(err)
 		}
 	}
+	gates := &verifC11Gates{hold: map[string]bool{}, parked: map[string]chan struct{}{}, arrivals: map[string]int{}}
+	VerifGate = gates.gate
+	defer func() {
+		gates.releaseAll()
+		VerifGate = nil
+	}()
 	mgr, err := New(d["pcap"], d["index"], d["snapshot"], d["state"], d["converter"], d["watch"])
 	if err != nil {
 		t.Fatal(err)
@@ -431,6 +493,48 @@ func verifC11RunSeq(t *testing.T, seq verifC11Seq, emit func(verifC11Line)) {
 						UpdateTagOperationSetConverter(*c.Conv)(info)
 					}
 				})
+			case "settle":
+				// wait until no background job runs and every tag is decided (nothing may be parked)
+				if _, at := gates.pending(); at == "" {
+					settle()
+				}
+			case "hold":
+				// park the next tagging job that arrives at the gate
+				gates.mu.Lock()
+				gates.hold[c.Point] = true
+				gates.mu.Unlock()
+			case "jobmark":
+				// (position marker for the model: the job started inside the previous call)
+			case "release":
+				// let the parked job go on and wait until its completion closure has run: either no tagging job
+				// is running any more or the next one has already arrived at its first gate
+				gates.mu.Lock()
+				before := gates.arrivals["tag.start"]
+				was := false
+				for p, ch := range gates.parked {
+					if ch != nil {
+						was = true
+						close(ch)
+						gates.parked[p] = nil
+					}
+				}
+				for p := range gates.hold {
+					gates.hold[p] = false
+				}
+				gates.mu.Unlock()
+				if was {
+					deadline := time.Now().Add(verifC11Timeout)
+					for time.Now().Before(deadline) {
+						st := mgr.Status()
+						gates.mu.Lock()
+						now := gates.arrivals["tag.start"]
+						gates.mu.Unlock()
+						if !st.TaggingJobRunning || now > before {
+							break
+						}
+						time.Sleep(200 * time.Microsecond)
+					}
+				}
 			case "restart":
 				// clean shutdown and a new Manager on the same directories: the tag table must come back as it was
 				mgr.Close()
@@ -459,6 +563,31 @@ func verifC11RunSeq(t *testing.T, seq verifC11Seq, emit func(verifC11Line)) {
 		})
 		line.Phase = "end"
 		line.Parse = nil
+		if returned && (c.Op == "add" || c.Op == "upd" || c.Op == "del") {
+			if holding, at := gates.pending(); holding && at == "" {
+				// a hold was requested: give the job started by this call the time to arrive
+				held := false
+				deadline := time.Now().Add(1500 * time.Millisecond)
+				for time.Now().Before(deadline) {
+					if _, at := gates.pending(); at != "" {
+						held = true
+						break
+					}
+					if st := mgr.Status(); !st.TaggingJobRunning {
+						break // the call started no tagging job
+					}
+					time.Sleep(200 * time.Microsecond)
+				}
+				if !held {
+					gates.mu.Lock()
+					for p := range gates.hold {
+						gates.hold[p] = false
+					}
+					gates.mu.Unlock()
+				}
+				line.Held = &held
+			}
+		}
 		if !returned {
 			line.Res = "hang"
 			emit(line)
@@ -489,6 +618,7 @@ func verifC11RunSeq(t *testing.T, seq verifC11Seq, emit func(verifC11Line)) {
 		}
 		emit(line)
 	}
+	gates.releaseAll() // a job still parked at the end of the sequence goes on
 	end := verifC11Line{Seq: seq.ID, I: len(seq.Calls), Phase: "seq-end", Next: next}
 	if !settle() {
 		end.Status = "stuck"
